@@ -1,5 +1,6 @@
 import Lean.Data.Json
 import Just.Model.Run
+import Just.Model.Signals
 open Lean
 
 namespace Just.Run
@@ -12,3 +13,9 @@ deriving instance FromJson, ToJson for Cfg
 deriving instance FromJson, ToJson for Prog
 deriving instance FromJson, ToJson for Ev
 end Just.Run
+
+namespace Just.Signals
+deriving instance FromJson, ToJson for Sig
+deriving instance FromJson, ToJson for Cmd
+deriving instance FromJson, ToJson for Step
+end Just.Signals
